@@ -252,19 +252,19 @@ CANARIES = [
 def configs(tier):
     out = []
     if tier == 'quick':
-        degs, fams, cells = [1, 2, 3, 4, 5], ['uniform', 'graded', 'irregular'], lambda d: [d + 1, d + 3]
+        degs, fams, cells = [1, 2, 3, 4, 5], ['uniform', 'graded', 'irregular'], lambda d: [d, d + 1, d + 3]
     else:
-        degs, fams, cells = [1, 2, 3, 4, 5, 6], ['uniform', 'graded', 'alternating', 'geometric', 'irregular'], lambda d: [1, 2, 3, d + 1, 8]
+        degs, fams, cells = [1, 2, 3, 4, 5, 6], ['uniform', 'graded', 'alternating', 'geometric', 'irregular'], lambda d: [1, 2, 3, d, d + 1, 8]
     for d in degs:
         for fam in fams:
             for n in sorted(set(cells(d))):
                 for per in (False, True):
-                    if per and n <= d:
+                    if per and n < d:            # make_knots admits periodic spaces with ncells >= degree
                         continue
                     out.append((d, per, fam, n, 'nu', None))
     for n in ([1, 2, 3, 5] if tier == 'quick' else [1, 2, 3, 4, 5, 6, 8]):
         for per in (False, True):
-            if per and n <= 3:
+            if per and n < 3:
                 continue
             out.append((3, per, 'uniform', n, 'cu', None))
     return out
